@@ -268,4 +268,63 @@ Section Life.
     assert (Hne : whiteout_path top [n] <> [n]) by (unfold whiteout_path; cbn; discriminate).
     unfold s0'. rewrite lookup_delete_ne by exact Hne. rewrite lookup_insert. reflexivity.
   Qed.
+  (** ** re-creating a deleted top-level DIRECTORY: the marker goes, an empty directory appears in the
+      upper layer *)
+  Lemma create_dir0 (s0 s1 : mstate) hs q :
+    q <> [] -> is_dir s0 (removelast q) -> s0 !! q = None ->
+    run bhandler (vp_create_dir v0 q) (S2 s0 s1 hs) =
+    (S2 (<[q := mkMemFile Dir [] TAuto (Some TAuto) (Some TAuto)]> s0) s1 hs, Ok tt).
+  Proof.
+    intros Hq Hd Hn. unfold vp_create_dir, bind_res. rewrite run_bind, get_parent0.
+    rewrite bool_decide_eq_true_2 by exact Hd.
+    cbn. unfold mem_fs_call. rewrite ms_create_dir. cbn [msec_sem].
+    rewrite (has_parent_true s0 q Hq Hd), Hn. reflexivity.
+  Qed.
+
+  Theorem recreate_dir_clears_marker (s0 s1 : mstate) hs (n : name) g :
+    wf s0 ->
+    s0 !! whiteout_path top [] = None ->
+    s0 !! whiteout_path top [n] = Some g -> f_type g = File ->
+    s0 !! [n] = None ->
+    run bhandler (ovl_impl top lower (CCreateDir [n])) (S2 s0 s1 hs) =
+    (S2 (delete (whiteout_path top [n]) (<[[n] := mkMemFile Dir [] TAuto (Some TAuto) (Some TAuto)]> s0)) s1 hs, Ok tt).
+  Proof.
+    intros Hwf Hroot Hm Hg Hup.
+    destruct Hwf as [(r & Hr & Hrt) Hpc].
+    cbn [ovl_impl]. unfold bind_res at 1. rewrite run_bind.
+    rewrite (ensure_parent_root s0 s1 hs n (conj (ex_intro _ r (conj Hr Hrt)) Hpc) Hroot).
+    unfold bind_res at 1. rewrite run_bind, (exists_rule hs lg ft s0 s1 [n] ltac:(discriminate)), Hm, Hup.
+    rewrite bool_decide_eq_false_2 by (intros [? ?]; discriminate).
+    rewrite bool_decide_eq_true_2 by eauto. cbn [negb andb orb].
+    unfold bind_res at 1. rewrite run_bind.
+    assert (Hrootdir : is_dir s0 (removelast [n])) by (cbn; exists r; auto).
+    unfold write_path. cbn [fst snd app].
+    rewrite (create_dir0 s0 s1 hs [n] ltac:(discriminate) Hrootdir Hup).
+    unfold clear_whiteout. cbn [fst]. unfold bind_res at 1. rewrite run_bind, exists0.
+    assert (Hne : whiteout_path top [n] <> [n]).
+    { unfold whiteout_path. cbn. discriminate. }
+    rewrite lookup_insert_ne by congruence. rewrite Hm.
+    rewrite bool_decide_eq_true_2 by eauto.
+    rewrite (remove_file0 _ s1 _ (whiteout_path top [n]) g); [|rewrite lookup_insert_ne by congruence; exact Hm|exact Hg].
+    reflexivity.
+  Qed.
+
+  (** a re-created directory is EMPTY: whatever the lower layer holds below it stays hidden by the
+      markers of the earlier removal (any directory of the upper layer without upper children whose
+      lower children are all marked lists nothing) *)
+  Theorem recreated_dir_is_empty (s0 s1 : mstate) hs (p : path) :
+    parent_closed s0 -> p <> [] ->
+    s0 !! whiteout_path top p = None -> is_dir s0 p ->
+    (s0 !! (whiteout_name :: p) = None \/ is_dir s0 (whiteout_name :: p)) ->
+    (forall c, s0 !! (p ++ [c]) = None) ->
+    (forall c, is_Some (s1 !! (p ++ [c])) -> is_Some (s0 !! whiteout_path top (p ++ [c]))) ->
+    run bhandler (ovl_read_dir top lower p) (S2 s0 s1 hs) = (S2 s0 s1 hs, Ok []).
+  Proof.
+    intros Hpc Hp Hwo Hd Hwdir Hup Hlow.
+    destruct (read_dir_rule hs lg ft s0 s1 p Hpc Hp Hwo (or_introl Hd) Hwdir) as (l & Hrun & Hl).
+    rewrite Hrun. f_equal. f_equal. apply elem_of_nil_inv. intros c Hc. apply Hl in Hc as [[[_ [x Hx]]|[_ Hc]] Hm].
+    - rewrite Hup in Hx. discriminate.
+    - apply Hlow in Hc as [y Hy]. rewrite Hm in Hy. discriminate.
+  Qed.
+
 End Life.
